@@ -62,6 +62,21 @@ Theorem C09_fold_list : forall t cols, is_list_ty t = true -> forall l n,
 Proof. exact fold_list. Qed.
 Print Assumptions C09_fold_list.
 
+Example C09_fold_model_nonvacuous :
+  heads_ok fxy [] cols_xy
+  /\ (forall k ct, field_ty fxy k = Some ct ->
+                   exists o, fold_slot ct (sub_key [] k cols_xy) (slot [] k) = Ok o)
+  /\ foldM (fa (TModel fxy [] [])) cols_xy (ODict []) = Ok (ODict [(S_ "y", OStr (S_ "baz")); (S_ "x", OStr (S_ "foo"))]).
+Proof. exact fold_model_nonvacuous. Qed.
+Print Assumptions C09_fold_model_nonvacuous.
+
+Example C09_fold_list_nonvacuous :
+  idx_scan (length (@nil out)) cols_12 = Some 2%nat
+  /\ (forall i, (i < 2)%nat -> exists o, fold_slot (child_ty (TList TStr)) (sub_idx i cols_12) (nth i (@nil out) ONone) = Ok o)
+  /\ foldM (fa (TList TStr)) cols_12 (OList []) = Ok (OList [OStr (S_ "c"); OStr (S_ "b")]).
+Proof. exact fold_list_nonvacuous. Qed.
+Print Assumptions C09_fold_list_nonvacuous.
+
 (* column order: any rearrangement of a row that keeps, for every top-level field, the relative order
    of ITS columns (stated through the subsequences sub_key) writes the same value ... *)
 Theorem C09_encodes_reorder : forall rm fields h2f f2h v cells cells' data data',
@@ -109,6 +124,12 @@ Theorem C09_group_len_order : forall p cs cs',
 Proof. exact group_len_order. Qed.
 Print Assumptions C09_group_len_order.
 
+Example C09_group_len_order_nonvacuous :
+  clean (S_ "p") = true /\ Permutation.Permutation gcells (rev gcells) /\ gcells <> rev gcells
+  /\ group_len (S_ "p") gcells = 3%nat /\ group_len (S_ "p") (rev gcells) = 3%nat.
+Proof. exact group_len_order_nonvacuous. Qed.
+Print Assumptions C09_group_len_order_nonvacuous.
+
 (* the columns a group of `p.*.g` cells expands to are a way of writing (Enc) the list of records
    whose element i takes from every column its i-th value if it has one, the field default otherwise *)
 Theorem C09_star_columns_enc : forall sfields sh2f sf2h d scs vs,
@@ -121,6 +142,16 @@ Theorem C09_star_columns_enc : forall sfields sh2f sf2h d scs vs,
   Enc (TList (TModel sfields sh2f sf2h)) d (VList vs) (star_cols scs).
 Proof. exact star_columns_enc. Qed.
 Print Assumptions C09_star_columns_enc.
+
+Example C09_star_columns_enc_nonvacuous :
+  let scs := star_scs 3 gcells in
+  NoDup (map f_name gfields) /\ NoDup (map (star_key []) scs)
+  /\ (forall sc, In sc scs -> field_ty gfields (star_key [] sc) <> None)
+  /\ length gvs = star_n scs /\ (0 < star_n scs)%nat
+  /\ (forall i, (i < star_n scs)%nat -> exists fs, nth i gvs (VStr []) = VModel fs /\ star_elem_spec gfields [] scs i fs)
+  /\ Enc (TList (TModel gfields [] [])) None (VList gvs) (star_cols scs).
+Proof. exact star_columns_enc_nonvacuous. Qed.
+Print Assumptions C09_star_columns_enc_nonvacuous.
 
 (* a row of `p.*.g` cells parses to the row whose list field has group_len elements (max over the
    sibling list-valued cells, at least 1), and a cell holding ONE value s gives EVERY element the
